@@ -5,6 +5,7 @@ CONSTANTS
   Fuel = 80
   Prods = {"app", "let", "arith", "div", "str", "br", "data", "pair", "codata", "fix"}
   Faults = {"wrongty", "tyterm", "unkctor", "unkdtor", "missingarm", "missingcoarm"}
+  Root = "os"
   BindTys = {"int", "B", "pii", "tS"}
   IntLits = {1, 2}
 INVARIANTS GenSound TypeSafety Report
